@@ -373,6 +373,9 @@ def run(ctx):
             if got != fullw[:len(got)] or (kth < len(fullw) - 1 and len(got) > kth + 2):
                 ctx.counterexample('kill() from a second thread after %d results: got %d results, not a prefix or too many' % (kth, len(got)), {'after': kth})
     ctx.counted('abort points, interleavings, threads, raising hooks', evals, len(nontriv), samples)
+    from props import glue
+    glue.cross_thread_kill(ctx)
+    glue.interleaved_walkers(ctx)
     return ctx.finish(RULE)
 
 
